@@ -106,22 +106,6 @@ class RoundTrip:
 
     # -- acceptance ------------------------------------------------------------------------------------
 
-    def retag(self, prev, kind, text):
-        key = (prev, kind, text if isinstance(text, str) else None)
-        if key in self._retag_memo:
-            return self._retag_memo[key]
-        pv = None
-        if prev is not None:
-            pk, pt = prev
-            pv = (pk, pt if isinstance(pt, str) else (lambda: SStr.atom("prevtext", free=True)))
-        outs = models.retag_outcomes(self.env, pv, kind, text if isinstance(text, str) else (lambda: SStr.atom("curtext", free=True)))
-        kinds = {o[0] for o in outs}
-        if len(kinds) != 1:
-            raise AnalysisError(f"retagging of {kind} not determined")
-        r = next(iter(kinds))
-        self._retag_memo[key] = r
-        return r
-
     def accepted(self, type_name: str, key: str, toks: list[tuple], parent: str | None = None) -> tuple[bool, str, list]:
         items: list[tuple] = [("W", type_name.upper()), ("W", key.upper())]
         for kind, text in toks:
@@ -136,13 +120,12 @@ class RoundTrip:
         if parent:
             items = [("W", parent.upper())] + items + [("W", "END")]
 
-        def rt(prev, kind, text):
-            r = self.retag(prev, kind, text)
-            if r.startswith("raise:"):
-                raise AnalysisError(f"Parser.parse raises {r[6:]}")
-            return r
-
-        return self.G.run_items(items, rt)
+        if not hasattr(self, "_retag"):
+            self._retag = models.make_retag(self.env)
+        try:
+            return self.G.run_items(items, self._retag)
+        except models.RetagRaised as ex:
+            return False, f"Parser.parse raises {ex} in its token loop", []
 
     # -- transformer -------------------------------------------------------------------------------------
 
